@@ -84,6 +84,10 @@ pub struct ConcCase {
     pub prog: Prog,
     /// explicit preemptions (step, thread); None = explore
     pub schedule: Option<Vec<(u64, u8)>>,
+    /// the exploration budget (with its seeds) the case was being explored with: recorded in the
+    /// in-flight file so that a crashed shard's exploration can be repeated exactly
+    #[serde(default, skip_serializing_if = "Option::is_none")]
+    pub budget: Option<Budget>,
 }
 
 pub struct ConcCheck {
@@ -111,6 +115,7 @@ impl ConcCheck {
         let t_start = std::time::Instant::now();
         let strat = prog_strategy(self.mix, self.max_threads, self.max_ops);
         drive_n(ctx, self.sub, ctx.shard_seed(salt), programs, 120, strat, out, |prog| {
+            ctx.mark_inflight(self.sub, &serde_json::to_string(&ConcCase { prog: prog.clone(), schedule: None, budget: Some(budget.clone()) }).unwrap());
             let ex = explore(pool, prog, budget, &self.opts, self.maker(), &self.judge);
             match ex.failure {
                 Some((sched, prop, msg)) => Err(CaseFail { prop, msg: format!("{} [after preemptions {:?}]", msg, sched.switches) }),
@@ -137,9 +142,9 @@ impl ConcCheck {
                     let ex = explore(pool, &prog, budget, &self.opts, self.maker(), &self.judge);
                     if let Some((sched, _, _)) = ex.failure {
                         let min = minimize_schedule(pool, &prog, &sched, &self.opts, self.maker(), &self.judge);
-                        v.replay = serde_json::json!({"sub": self.sub, "case": ConcCase { prog, schedule: Some(min.switches) }});
+                        v.replay = serde_json::json!({"sub": self.sub, "case": ConcCase { prog, schedule: Some(min.switches), budget: None }});
                     } else {
-                        v.replay = serde_json::json!({"sub": self.sub, "case": ConcCase { prog, schedule: None }});
+                        v.replay = serde_json::json!({"sub": self.sub, "case": ConcCase { prog, schedule: None, budget: None }});
                     }
                 }
             }
@@ -151,7 +156,7 @@ impl ConcCheck {
         let cc: ConcCase = match serde_json::from_value::<ConcCase>(case.clone()) {
             Ok(c) => c,
             Err(_) => match serde_json::from_value::<Prog>(case.clone()) {
-                Ok(p) => ConcCase { prog: p, schedule: None },
+                Ok(p) => ConcCase { prog: p, schedule: None, budget: None },
                 Err(e) => return Err(CaseFail { prop: self.asked.into(), msg: format!("bad replay file: {}", e) }),
             },
         };
@@ -167,6 +172,7 @@ impl ConcCheck {
                     (self.judge)(&cc.prog, &out).map(|_| ()).map_err(|(p, m)| CaseFail { prop: p, msg: m })?;
                 }
                 None => {
+                    let budget = cc.budget.as_ref().unwrap_or(budget);
                     let ex = explore(pool, &cc.prog, budget, &self.opts, self.maker(), &self.judge);
                     if let Some((sched, prop, msg)) = ex.failure {
                         return Err(CaseFail { prop, msg: format!("{} [after preemptions {:?}]", msg, sched.switches) });
